@@ -282,7 +282,11 @@ def rule_r6(facts, rep, rid="C14-R6"):
         # inherent Key fns and its From/Display impls in liwe; the editor-side KeyExt trait (completion labels, filter text) is not a name conversion
         if f.def_.startswith("liwe::fs::") or ((f.impl_self or "").endswith("model::Key") and f.crate == "liwe") or (f.impl_self or "").endswith("server::BasePath"):
             scope.append(f)
-    rep.floor(rid, "fns of the name conversions (liwe::fs, Key, BasePath)", len(scope), 15)
+        # ... and the plumbing that carries the library directory from the command line to BasePath and to the loader: both must get the same spelling of it
+        elif f.crate in ("iwes", "iwe") and any(x.get("k") == "struct" and fb.norm(x.get("def", "")).endswith(("router::ServerConfig", "iwes::ServerParams", "server::BasePath"))
+                                                for x in fb.walk(f.body)):
+            scope.append(f)
+    rep.floor(rid, "fns of the name conversions (liwe::fs, Key, BasePath, base-path plumbing)", len(scope), 18)
     n = 0
     for f in scope:
         rep.saw_fn(f)
@@ -372,3 +376,7 @@ def run(facts, rep, tier):
     _c15.rule_r3(facts, rep, "C14-R7")
     rep.rule("C14-R8", "Key -> URI goes through Key::to_path (append-only): BasePath::key_to_url does not normalise the key's own `.md` away.")
     rule_r8(facts, rep)
+    rep.rule("C14-R9", "= C16-R8 for Key: a key is the same note exactly when its text is the same - ==, Hash and the order of Key are the derived (literal) ones; a folded or partial notion "
+             "of equality makes two files share one entry of the library (one of them is written over the other).")
+    from . import c16 as _c16
+    _c16.rule_r8(facts, rep, "C14-R9", only=("Key",), floor=4)
